@@ -435,6 +435,48 @@ pub fn run(quick: bool, _seed: u64, work: &str) -> Out {
                 n.shutdown().await;
             }
         }
+        // ---- B2. every membership view: two peers, each absent / unknown (never probed) / up / down ---------------
+        {
+            let a = spawn_node_manual_membership(30, data.clone()).await;
+            let p1 = spawn_node(31, data.clone(), Load::Ok).await;
+            let p2 = spawn_node(32, data.clone(), Load::Ok).await;
+            for n in [&a, &p1, &p2] {
+                let st = n.state().clone();
+                wait_until(|| st.tables_loaded(), 30).await;
+            }
+            // let the start-up discovery pass finish before taking over the view
+            tokio::time::sleep(Duration::from_millis(200)).await;
+            let peers = [(p1.address().to_string(), p1.node_id()), (p2.address().to_string(), p2.node_id())];
+            let states = ["absent", "unknown", "up", "down"];
+            let m = a.state().membership.clone();
+            for s1 in states {
+                for s2 in states {
+                    m.set_members(vec![]);
+                    let addrs: Vec<String> = [(s1, &peers[0]), (s2, &peers[1])].iter().filter(|(s, _)| *s != "absent").map(|(_, p)| p.0.clone()).collect();
+                    m.set_members(addrs);
+                    let mut up = 1;
+                    for (s, p) in [(s1, &peers[0]), (s2, &peers[1])] {
+                        match s {
+                            "up" => {
+                                m.record_up(&p.0, Some(p.1), None);
+                                up += 1;
+                            }
+                            "down" => m.record_down(&p.0, "verification harness: marked down"),
+                            _ => {}
+                        }
+                    }
+                    let scenario = format!("membership/peer1-{s1}/peer2-{s2}");
+                    for (stmt, ord) in stmts.iter().filter(|s| !s.0.contains("FROM e")).take(if quick { 5 } else { 11 }) {
+                        for mode in ["", "auto", "0"] {
+                            check_answer(&mut cx, &scenario, &a, up, stmt, *ord, mode, "").await;
+                        }
+                    }
+                }
+            }
+            a.shutdown().await;
+            p1.shutdown().await;
+            p2.shutdown().await;
+        }
         // ---- C. a distributed execution failure is never papered over with a local answer -----------------------
         for fault in ["peer-still-loading", "peer-has-other-data", "peer-died"] {
             let a = spawn_node(20, data.clone(), Load::Ok).await;
